@@ -218,10 +218,10 @@ def run(rep, tier, seed, replay):
     if replay:
         cases = [json.load(open(replay))["case"]]
     else:
-        def cfg(name, fix, term, wake, sl):
+        def cfg(name, fix, term, wake, sl, wait="TRUE"):
             p = os.path.join(vlib.SPEC, "gen_%s.cfg" % name)
-            open(p, "w").write("SPECIFICATION Spec\nCONSTANTS\n  IndexFixup = %s\n  TerminateStops = %s\n  WakeCheck = %s\n  Slice = %d\n  MaxVisits = 14\n"
-                               "INVARIANTS InvRoundRobin InvNoEarlyWake InvScriptDoneTruth InvTerminateEffective InvIsolation\n" % (fix, term, wake, sl))
+            open(p, "w").write("SPECIFICATION Spec\nCONSTANTS\n  IndexFixup = %s\n  TerminateStops = %s\n  WakeCheck = %s\n  Slice = %d\n  MaxVisits = 14\n  WaitCheck = %s\n"
+                               "INVARIANTS InvRoundRobin InvNoEarlyWake InvScriptDoneTruth InvTerminateEffective InvWaitHolds InvIsolation\n" % (fix, term, wake, sl, wait))
             return os.path.basename(p)
         for sl in (1, 2, 3):
             r = vlib.tlc("Sched_MC", cfg("sched_ideal", "TRUE", "TRUE", "TRUE", sl), workers=8, timeout_s=900)
@@ -229,7 +229,8 @@ def run(rep, tier, seed, replay):
                 raise vlib.MachineryError("Sched design check failed: %s %s" % (r.violated, (r.error or "")[:400]))
             rep.add_tlc(r, "Sched_MC ideal, slice %d" % sl)
         for nm, a, inv in (("NoIndexFixup", ("FALSE", "TRUE", "TRUE", 2), "InvRoundRobin"), ("TerminateIgnored", ("TRUE", "FALSE", "TRUE", 2), "InvTerminateEffective"),
-                           ("WakeEarly", ("TRUE", "TRUE", "FALSE", 1), "InvNoEarlyWake")):
+                           ("WakeEarly", ("TRUE", "TRUE", "FALSE", 1), "InvNoEarlyWake"),
+                           ("WaitEndsOnFalse", ("TRUE", "TRUE", "TRUE", 2, "FALSE"), "InvWaitHolds")):
             r2 = vlib.tlc("Sched_MC", cfg("sched_dev", *a), workers=4, timeout_s=600)
             if r2.violated != inv:
                 raise vlib.MachineryError("vacuity self-test: deviation %s should violate %s, got %s" % (nm, inv, r2.violated))
